@@ -31,7 +31,7 @@ fn idle_history(rng: &mut Rng, cap: Option<usize>) -> (Vec<u8>, Option<&'static 
         }
         4 => (adversarial_stream(rng, 6), Some("R")),
         5 => (adversarial_stream(rng, 6), Some("F")),
-        6 => (alpha_range(rng, 0, 8), Some("R")),
+        6 => (alpha_range(rng, 0, 8), Some(*rng.pick(&["R", "N", "Bdeadbeef", "B-"]))),
         _ => {
             // out of memory
             let mut s = spec::START.to_vec();
@@ -151,7 +151,11 @@ fn gen_c14(tier: &Tier, rng: &mut Rng, _w: usize, nw: usize, out: &mut Vec<Case>
             (s1[..c].to_vec(), None)
         } else {
             let c = rng.below(s1.len() + 1);
-            (s1[..c].to_vec(), Some(if rng.chance(1, 2) { "R" } else { "F" }))
+            (s1[..c].to_vec(), Some(*rng.pick(&["R", "F", "R", "F", "N", "B-", "Bdeadbeef"])))
+        };
+        let op = match (op, cap) {
+            (Some("Bdeadbeef"), Some(c)) if c < 4 => Some("B-"),
+            (o, _) => o,
         };
         let hist = match op {
             Some(o) => format!("{} {}", tok(&prefix), o),
@@ -198,6 +202,20 @@ fn gen_c16(tier: &Tier, rng: &mut Rng, w: usize, nw: usize, out: &mut Vec<Case>)
             );
         }
     }
+    if w < 4 {
+        // capacities and payload lengths around 2^16 (length fields of the buffer must not be narrower than usize)
+        let l = [65535usize, 65536, 65537, 70000][w];
+        let p: Vec<u8> = (0..l).map(|i| (i % 250) as u8 + 1).collect();
+        let f = spec::frame(&p);
+        let f2 = spec::frame(&[7, 7]);
+        for n in [65535usize, 65536, 65537, 70000] {
+            out.push(
+                Case::new("capacity-64k", vec![format!("dec {} {} {} F", n, tok(&f), tok(&f2))])
+                    .with_aux(vec![hex(&p), "0707".into(), n.to_string()])
+                    .impl_only(true),
+            );
+        }
+    }
     if w == 0 {
         // default 8 KiB reader buffer
         for l in [8191usize, 8192, 8193] {
@@ -222,6 +240,25 @@ fn gen_c16(tier: &Tier, rng: &mut Rng, w: usize, nw: usize, out: &mut Vec<Case>)
 // ---------------------------------------------------------------------------------------------
 
 fn gen_c11(tier: &Tier, rng: &mut Rng, _w: usize, nw: usize, out: &mut Vec<Case>) {
+    if _w == 0 {
+        // faults and end of input after 2^16 and more pending bytes (noise, and an unfinished frame)
+        for n in [65535usize, 65536, 65537, 70000, 131072] {
+            for in_frame in [false, true] {
+                let mut s: Vec<u8> = if in_frame { spec::START.to_vec() } else { vec![] };
+                s.extend(vec![0xaa; n]);
+                let rest = spec::frame(&[1, 2]);
+                out.push(Case::new("other-error", vec![
+                    format!("rdr io inf {} {} O {}", calls('n', 8), tok(&s), tok(&rest)),
+                    format!("rdr io inf {} {}", calls('n', 4), tok(&s)),
+                    format!("rdr io inf {} {}", calls('n', 4), tok(&rest)),
+                ]));
+                out.push(Case::new("wouldblock", vec![
+                    format!("rdr io inf {} {} W {} W", calls('n', 8), tok(&s), tok(&rest)),
+                    format!("rdr io inf {} {} {}", calls('n', 6), tok(&s), tok(&rest)),
+                ]));
+            }
+        }
+    }
     let n = if tier.thorough { 400_000 } else { 20_000 } / nw;
     for _ in 0..n {
         let s: Vec<u8> = if rng.chance(1, 2) {
@@ -300,6 +337,39 @@ pub fn real_payloads() -> Vec<Vec<u8>> {
 }
 
 fn gen_c03(tier: &Tier, rng: &mut Rng, _w: usize, nw: usize, out: &mut Vec<Case>) {
+    if _w == 0 {
+        // valid messages with very long (zero-padded) type-length fields: field-size counters cross 2^8 / 2^16
+        for pad in LONG_FIELD_PADS {
+            let (x, tid) = long_tlf_message(pad, true);
+            let ast = format!("M(x{},7,9,C(~))", hex(&tid));
+            out.push(
+                Case::new("valid-long-tlf", vec![format!("parse {}", tok(&x)), format!("stream {} 2", tok(&x))])
+                    .with_aux(vec![format!("F[{}]", ast), format!("MS{}", &ast[1..])]),
+            );
+        }
+    }
+    // list lengths 41..1100 (thresholds that arise from struct sizes / allocation caps)
+    for (k, cnt) in (41usize..=1100).step_by(7).chain([743usize, 744, 745, 1489].into_iter()).enumerate() {
+        if k % nw == _w {
+            let (x, f) = big_list_file(cnt);
+            out.push(
+                Case::new("valid-list-sweep", vec![format!("parse {}", tok(&x)), format!("stream {} 2", tok(&x))])
+                    .with_aux(vec![show_gfile(&f), show_gevents(&f).join(" ")]),
+            );
+        }
+    }
+    // "how many" counters crossing 2^8 and 2^16: list entries, messages, string bytes
+    for (k, cnt) in BIG_COUNTS.iter().enumerate() {
+        if k % nw == _w {
+            for (x, f) in [big_list_file(*cnt), many_messages_file(*cnt), long_string_file(*cnt)] {
+                out.push(
+                    Case::new("valid-big-count", vec![format!("parse {}", tok(&x)), format!("stream {} 2", tok(&x))])
+                        .with_aux(vec![show_gfile(&f), show_gevents(&f).join(" ")])
+                        .impl_only(*cnt > 1000),
+                );
+            }
+        }
+    }
     let n = if tier.thorough { 500_000 } else { 24_000 } / nw;
     for i in 0..n {
         let f = if i % 8 == 0 { gfile(rng, 2, 40) } else { gfile(rng, 3, 6) };
@@ -347,6 +417,25 @@ fn mutant(rng: &mut Rng, reals: &[Vec<u8>]) -> Vec<u8> {
 }
 
 fn gen_c04(tier: &Tier, rng: &mut Rng, _w: usize, nw: usize, out: &mut Vec<Case>) {
+    // declared list length ≠ number of entries present, checksum correct: must be rejected
+    for (k, actual) in [0usize, 1, 14, 15, 16, 40, 46, 255, 256, 372, 743, 744, 745, 1000, 65535, 65536].iter().enumerate() {
+        if k % nw == _w {
+            for declared in [actual + 1, actual.saturating_sub(1), 2 * actual + 3, 2000, 70000] {
+                if declared != *actual {
+                    let x = list_arity_file(declared, *actual);
+                    out.push(Case::new("wrong-arity", vec![format!("parse {}", tok(&x)), format!("stream {} 2", tok(&x))]).impl_only(*actual > 1000));
+                }
+            }
+        }
+    }
+    if _w == 0 {
+        for pad in LONG_FIELD_PADS {
+            for valid in [true, false] {
+                let (x, _) = long_tlf_message(pad, valid);
+                out.push(Case::new("long-tlf", vec![format!("parse {}", tok(&x)), format!("stream {} 2", tok(&x))]));
+            }
+        }
+    }
     let reals = real_payloads();
     let n = if tier.thorough { 800_000 } else { 40_000 } / nw;
     for _ in 0..n {
@@ -356,6 +445,38 @@ fn gen_c04(tier: &Tier, rng: &mut Rng, _w: usize, nw: usize, out: &mut Vec<Case>
 }
 
 fn gen_c09(tier: &Tier, rng: &mut Rng, _w: usize, nw: usize, out: &mut Vec<Case>) {
+    // declared list length ≠ number of entries present, checksum correct: must be rejected
+    for (k, actual) in [0usize, 1, 14, 15, 16, 40, 46, 255, 256, 372, 743, 744, 745, 1000, 65535, 65536].iter().enumerate() {
+        if k % nw == _w {
+            for declared in [actual + 1, actual.saturating_sub(1), 2 * actual + 3, 2000, 70000] {
+                if declared != *actual {
+                    let x = list_arity_file(declared, *actual);
+                    out.push(Case::new("wrong-arity", vec![format!("parse {}", tok(&x)), format!("stream {} 2", tok(&x))]).impl_only(*actual > 1000));
+                }
+            }
+        }
+    }
+    for (k, cnt) in BIG_COUNTS.iter().enumerate() {
+        if k % nw == _w {
+            for (x, _) in [big_list_file(*cnt), many_messages_file(*cnt), long_string_file(*cnt)] {
+                out.push(Case::new("big-count", vec![format!("parse {}", tok(&x)), format!("stream {} 2", tok(&x))]).impl_only(*cnt > 1000));
+                let mut y = x.clone();
+                let n = y.len();
+                y[n - 2] ^= 0x10; // checksum of the last message
+                out.push(Case::new("big-count-badcrc", vec![format!("parse {}", tok(&y)), format!("stream {} 2", tok(&y))]).impl_only(*cnt > 1000));
+                y.truncate(n - 5);
+                out.push(Case::new("big-count-cut", vec![format!("parse {}", tok(&y)), format!("stream {} 2", tok(&y))]).impl_only(*cnt > 1000));
+            }
+        }
+    }
+    if _w == 0 {
+        for pad in LONG_FIELD_PADS {
+            for valid in [true, false] {
+                let (x, _) = long_tlf_message(pad, valid);
+                out.push(Case::new("long-tlf", vec![format!("parse {}", tok(&x)), format!("stream {} 2", tok(&x))]));
+            }
+        }
+    }
     let reals = real_payloads();
     let n = if tier.thorough { 800_000 } else { 40_000 } / nw;
     for _ in 0..n {
@@ -368,6 +489,24 @@ fn gen_c09(tier: &Tier, rng: &mut Rng, _w: usize, nw: usize, out: &mut Vec<Case>
 }
 
 fn gen_c13(tier: &Tier, rng: &mut Rng, _w: usize, nw: usize, out: &mut Vec<Case>) {
+    for (k, cnt) in BIG_COUNTS.iter().enumerate() {
+        if k % nw == _w {
+            for (x, _) in [big_list_file(*cnt), many_messages_file(*cnt)] {
+                let mut y = x.clone();
+                let n = y.len();
+                y[n - 2] ^= 0x10;
+                out.push(Case::new("big-count-badcrc", vec![format!("stream {} 16", tok(&y))]).impl_only(*cnt > 1000));
+            }
+        }
+    }
+    if _w == 0 {
+        for pad in LONG_FIELD_PADS {
+            for valid in [true, false] {
+                let (x, _) = long_tlf_message(pad, valid);
+                out.push(Case::new("long-tlf", vec![format!("stream {} 16", tok(&x))]));
+            }
+        }
+    }
     let reals = real_payloads();
     let n = if tier.thorough { 800_000 } else { 40_000 } / nw;
     for _ in 0..n {
@@ -382,6 +521,27 @@ fn glr_prefix() -> Vec<u8> {
 }
 
 fn gen_c06(tier: &Tier, rng: &mut Rng, _w: usize, nw: usize, out: &mut Vec<Case>) {
+    for (k, cnt) in BIG_COUNTS.iter().enumerate() {
+        if k % nw == _w {
+            for (x, _) in [big_list_file(*cnt), many_messages_file(*cnt), long_string_file(*cnt)] {
+                out.push(Case::new("big-count", vec![format!("parse {}", tok(&x)), format!("stream {} 4", tok(&x))]).impl_only(*cnt > 1000));
+                let mut y = x.clone();
+                let n = y.len();
+                y[n - 2] ^= 0x10; // checksum of the last message
+                out.push(Case::new("big-count-badcrc", vec![format!("parse {}", tok(&y)), format!("stream {} 4", tok(&y))]).impl_only(*cnt > 1000));
+                y.truncate(n - 5);
+                out.push(Case::new("big-count-cut", vec![format!("parse {}", tok(&y)), format!("stream {} 4", tok(&y))]).impl_only(*cnt > 1000));
+            }
+        }
+    }
+    if _w == 0 {
+        for pad in LONG_FIELD_PADS {
+            for valid in [true, false] {
+                let (x, _) = long_tlf_message(pad, valid);
+                out.push(Case::new("long-tlf", vec![format!("parse {}", tok(&x)), format!("stream {} 4", tok(&x))]));
+            }
+        }
+    }
     let reals = real_payloads();
     let n = if tier.thorough { 800_000 } else { 40_000 } / nw;
     for i in 0..n {
@@ -461,6 +621,18 @@ fn gen_c12(tier: &Tier, rng: &mut Rng, w: usize, nw: usize, out: &mut Vec<Case>)
     for _ in 0..nw_ {
         push_list(wild_tlf(rng), out);
     }
+    if w == 0 {
+        // very long fields: a list field and an octet field with many leading zero-nibble bytes
+        for pad in LONG_FIELD_PADS {
+            let mut t = vec![0xf0u8];
+            t.extend(vec![0x80u8; pad]);
+            t.push(0x05);
+            push_list(t, out);
+            let mut u = vec![0x80u8; pad];
+            u.push(0x03);
+            push_list(u, out);
+        }
+    }
     // (b) integers of every width with every leading-byte pattern at value / status / scaler positions
     let ni = if tier.thorough { 300_000 } else { 15_000 } / nw;
     for _ in 0..ni {
@@ -508,6 +680,21 @@ fn gen_c12(tier: &Tier, rng: &mut Rng, w: usize, nw: usize, out: &mut Vec<Case>)
 // ---------------------------------------------------------------------------------------------
 
 fn gen_c10(tier: &Tier, rng: &mut Rng, _w: usize, nw: usize, out: &mut Vec<Case>) {
+    if _w < 6 {
+        // payload lengths / trailing noise around 2^16 (growable buffer)
+        let l = [65517usize, 65520, 65535, 65536, 65537, 70000][_w];
+        let (x, f) = long_string_file(l - 30);
+        let g = vec![0x55u8; 3];
+        let tail = vec![0xaau8; [65536usize, 65535, 70000, 131072, 0, 1][_w]];
+        let expect = format!("{}|{}|{}|{}", g.len(), hex(&x), show_gfile(&f), show_gevents(&f).join(";"));
+        for kind in ["mem", "io"] {
+            out.push(
+                Case::new("e2e-64k", vec![format!("sml {} inf nbnfnpnbnfnpnbnbnb {} {} {} {} {} {} {}", kind, tok(&g), tok(&spec::frame(&x)), tok(&g), tok(&spec::frame(&x)), tok(&g), tok(&spec::frame(&x)), tok(&tail))])
+                    .with_aux(vec![[expect.clone(), expect.clone(), expect.clone()].join("#"), tail.len().to_string()])
+                    .impl_only(false),
+            );
+        }
+    }
     let n = if tier.thorough { 200_000 } else { 8_000 } / nw;
     for _ in 0..n {
         let k = rng.range(1, 4);
